@@ -261,6 +261,16 @@ def dispatch (toks : List String) : String :=
           if fails.isEmpty then "ok" else "fail " ++ ",".intercalate fails
         | none => "bad-op")
      | _ => "bad-op")
+  -- p.C04 <proj> K <ok|multi|unresolved|cycle>
+  | "p.C04" :: rest =>
+    (match rest.reverse with
+     | k :: "K" :: projRev =>
+       (match parseProj projRev.reverse with
+        | some p =>
+          let fails := Spec.c04 p k
+          if fails.isEmpty then "ok" else "fail " ++ ",".intercalate fails
+        | none => "bad-op")
+     | _ => "bad-op")
   | _ => "bad-op"
 
 end Drv
